@@ -85,6 +85,35 @@ def _x(case):
     return data(case["shape"], case.get("dtype", "f32"))
 
 
+CAST_FAMS = {"sum": (7, 7, 11, 1), "sum_dim": (7, 7, 11), "prod": (7, 11), "prod_dim": (7, 11), "mean_dim": (11,)}
+_TORCH_DT = {1: "float32", 7: "int64", 11: "float64"}
+
+
+def _maybe_cast(rng, name, c):
+    """dtype= argument of the reductions: sometimes a lossy one (float halves -> int64) so that the place of the Cast shows."""
+    c["cast"] = None
+    if name in CAST_FAMS and rng.random() < 0.3:
+        c["cast"] = rng.choice(CAST_FAMS[name])
+        if c["cast"] == 7 or name == "mean_dim":
+            c["dtype"] = "f32"
+    return c
+
+
+def _xc(c):
+    x = _x(c)
+    if c.get("cast") is not None and c.get("dtype") == "f32":
+        return np.asarray((x / np.float32(2)).astype(np.float32))      # halves: 0, .5, 1, 1.5, …
+    return x
+
+
+def _cast_kw(c):
+    return {} if c.get("cast") is None else {"dtype": c["cast"]}
+
+
+def _cast_tkw(c, t):
+    return {} if c.get("cast") is None else {"dtype": getattr(t, _TORCH_DT[c["cast"]])}
+
+
 # ---- view algebra -----------------------------------------------------------------------------
 
 @fam("flatten", "view", ["aten::flatten.using_ints"])
@@ -848,27 +877,28 @@ def _reduce(name, fnname, overloads, tfn, dtypes, has_none=False, fixed_kw=None)
             dims = _gen_dims(rng, len(s))
             if has_none and rng.random() < 0.2:
                 dims = None
-            return dict(shape=s, dtype=rdtype(rng, dtypes), dims=dims, keep=rng.random() < 0.5)
+            return _maybe_cast(rng, name, dict(shape=s, dtype=rdtype(rng, dtypes), dims=dims, keep=rng.random() < 0.5))
 
         @staticmethod
         def line(c):
-            return f"{name} {sh(c['shape'])} {'N' if c['dims'] is None else ints(c['dims'])} {int(c['keep'])}"
+            return f"{name} {sh(c['shape'])} {'N' if c['dims'] is None else ints(c['dims'])} {int(c['keep'])}" + \
+                (f" {opt(c.get('cast'))}" if name in CAST_FAMS else "")
 
         @staticmethod
         def call(c):
-            return [_x(c), (None if c["dims"] is None else list(c["dims"])), c["keep"]], {}
+            return [_xc(c), (None if c["dims"] is None else list(c["dims"])), c["keep"]], _cast_kw(c)
 
         @staticmethod
         def torch(c, t):
-            return tfn(t, t.tensor(_x(c)), c["dims"], c["keep"])
+            return tfn(t, t.tensor(_xc(c)), c["dims"], c["keep"], **_cast_tkw(c, t))
     _R.fnname = fnname
     return fam(name, "reduction", overloads)(_R)
 
 
 _reduce("sum_dim", "aten_sum_dim_IntList", ["aten::sum.dim_IntList"],
-        lambda t, x, d, k: t.sum(x, dim=d, keepdim=k), ("f32", "i64", "f16"), has_none=True)
+        lambda t, x, d, k, **kw: t.sum(x, dim=d, keepdim=k, **kw), ("f32", "i64", "f16"), has_none=True)
 _reduce("mean_dim", "aten_mean_dim", ["aten::mean.dim"],
-        lambda t, x, d, k: t.mean(x, dim=d, keepdim=k), ("f32",))
+        lambda t, x, d, k, **kw: t.mean(x, dim=d, keepdim=k, **kw), ("f32",))
 _reduce("amax", "aten_amax", ["aten::amax"], lambda t, x, d, k: t.amax(x, dim=d, keepdim=k), ("f32", "i64", "i32"))
 _reduce("amin", "aten_amin", ["aten::amin"], lambda t, x, d, k: t.amin(x, dim=d, keepdim=k), ("f32", "i64", "i32"))
 _reduce("all_dims", "aten_all_dims", ["aten::all.dims"], lambda t, x, d, k: t.ops.aten.all.dims(x, d, k), ("f32", "i64", "bool"), has_none=True)
@@ -883,19 +913,19 @@ def _reduce1(name, fnname, overloads, tfn, dtypes, optional_dim=False):
             d = rdim(rng, len(s))
             if optional_dim and rng.random() < 0.3:
                 d = None
-            return dict(shape=s, dtype=rdtype(rng, dtypes), dim=d, keep=rng.random() < 0.5, small=(name == "prod_dim"))
+            return _maybe_cast(rng, name, dict(shape=s, dtype=rdtype(rng, dtypes), dim=d, keep=rng.random() < 0.5, small=(name == "prod_dim")))
 
         @staticmethod
         def line(c):
-            return f"{name} {sh(c['shape'])} {opt(c['dim'])} {int(c['keep'])}"
+            return f"{name} {sh(c['shape'])} {opt(c['dim'])} {int(c['keep'])}" + (f" {opt(c.get('cast'))}" if name in CAST_FAMS else "")
 
         @staticmethod
         def call(c):
-            return [_x(c), c["dim"], c["keep"]], {}
+            return [_xc(c), c["dim"], c["keep"]], _cast_kw(c)
 
         @staticmethod
         def torch(c, t):
-            return tfn(t, t.tensor(_x(c)), c["dim"], c["keep"])
+            return tfn(t, t.tensor(_xc(c)), c["dim"], c["keep"], **_cast_tkw(c, t))
     _R.fnname = fnname
     return fam(name, "reduction", overloads)(_R)
 
@@ -904,36 +934,36 @@ _reduce1("all_dim", "aten_all_dim", ["aten::all.dim"], lambda t, x, d, k: t.all(
 _reduce1("any_dim", "aten_any_dim", ["aten::any.dim"], lambda t, x, d, k: t.any(x, dim=d, keepdim=k), ("f32", "i64", "bool"))
 _reduce1("argmax", "aten_argmax", ["aten::argmax"], lambda t, x, d, k: t.argmax(x, dim=d, keepdim=k), ("f32", "i64", "i32"), optional_dim=True)
 _reduce1("argmin", "aten_argmin", ["aten::argmin"], lambda t, x, d, k: t.argmin(x, dim=d, keepdim=k), ("f32", "i64", "i32"), optional_dim=True)
-_reduce1("prod_dim", "aten_prod_dim_int", ["aten::prod.dim_int"], lambda t, x, d, k: t.prod(x, dim=d, keepdim=k), ("f32", "i64"))
+_reduce1("prod_dim", "aten_prod_dim_int", ["aten::prod.dim_int"], lambda t, x, d, k, **kw: t.prod(x, dim=d, keepdim=k, **kw), ("f32", "i64"))
 
 
 def _reduce0(name, fnname, overloads, tfn, dtypes):
     class _R:
         @staticmethod
         def gen(rng):
-            return dict(shape=rshape(rng), dtype=rdtype(rng, dtypes), small=(name == "prod"))
+            return _maybe_cast(rng, name, dict(shape=rshape(rng), dtype=rdtype(rng, dtypes), small=(name == "prod")))
 
         @staticmethod
         def line(c):
             if name == "prod":
-                return f"prod {sh(c['shape'])} {int(c['dtype'] in ('i64', 'i32', 'u8'))}"
-            return f"{name} {sh(c['shape'])}"
+                return f"prod {sh(c['shape'])} {int(c['dtype'] in ('i64', 'i32', 'u8'))} {opt(c.get('cast'))} ."
+            return f"{name} {sh(c['shape'])}" + (f" {opt(c.get('cast'))}" if name in CAST_FAMS else "")
 
         @staticmethod
         def call(c):
-            return [_x(c)], {}
+            return [_xc(c)], _cast_kw(c)
 
         @staticmethod
         def torch(c, t):
-            return tfn(t, t.tensor(_x(c)))
+            return tfn(t, t.tensor(_xc(c)), **_cast_tkw(c, t))
     _R.fnname = fnname
     return fam(name, "reduction", overloads)(_R)
 
 
-_reduce0("sum", "aten_sum", ["aten::sum"], lambda t, x: t.sum(x), ("f32", "i64", "f16"))
+_reduce0("sum", "aten_sum", ["aten::sum"], lambda t, x, **kw: t.sum(x, **kw), ("f32", "i64", "f16"))
 _reduce0("all", "aten_all", ["aten::all"], lambda t, x: t.all(x), ("f32", "i64", "bool"))
 _reduce0("any", "aten_any", ["aten::any"], lambda t, x: t.any(x), ("f32", "i64", "bool"))
-_reduce0("prod", "aten_prod", ["aten::prod"], lambda t, x: t.prod(x), ("f32", "i64"))
+_reduce0("prod", "aten_prod", ["aten::prod"], lambda t, x, **kw: t.prod(x, **kw), ("f32", "i64"))
 
 
 @fam("cumsum", "reduction", ["aten::cumsum"])
